@@ -149,6 +149,23 @@ CHECKS.update({
         technique="Kani/CBMC bounded model checking of macro expansions with logging joiners; renamed-futures harness crate for the path option"),
 })
 
+CHECKS.update({
+    "C17": dict(
+        level="translation_validation", ref="3 (C17)",
+        text="Translation validation against closed forms: a 12 x 12 (thorough 24 x 24) one-step program with block captures at (branch, position) pairs whose decimal concatenations collide and block "
+             "operands on both fold positions, a 12-step program, every ordered pair of the 12 macro names with the inner macro in an operand / block capture / handler (quick: a quarter, seed-rotated; "
+             "async inside sync through one poll), seed-sampled depth-3 triples, and programs whose closures use identifiers spelled like internal names. One CBMC query per packed group decides the "
+             "value for ALL symbolic scalars.",
+        technique="Kani/CBMC equivalence checking of macro expansion vs closed form (large index programs, nested macro pairs)"),
+    "C19": dict(
+        level="model_checking", ref="3 (C19)",
+        text="Allocation claim: with kani::stub the entry points std::alloc::{alloc, alloc_zeroed, realloc} are replaced by counting wrappers; for profile programs and sampled non-allocating operator "
+             "chains under join!/try_join! one CBMC query shows the counter is 0 right after the macro for ALL inputs (a positive witness with Box::new / Vec growth must count 1 and 2). Bounds claim: "
+             "programs over &mut / & borrows of the caller's stack and a move-only !Send !Sync struct under join!, try_join!, join_async!, try_join_async! must build (a new Clone / Send / 'static "
+             "bound is a build-stage violation) and the solver checks their values and the effects of the mutable borrows.",
+        technique="Kani/CBMC bounded model checking with allocation-counting stubs; type checking of move-only / borrowing programs by construction"),
+})
+
 NOT_APPLICABLE = {
     "C15": "Quantifies over token streams fed to the expander and has no run-time dimension; deciding it needs symbolic execution of JoinInputDefault::parse + generate_join, "
            "and Kani 0.68 ICEs on proc_macro2::Ident::new / does not finish pushing one token into a TokenStream in 900 s (DESIGN.md 1.1, 4). A hand model of the parser would not be the repository's code.",
